@@ -24,9 +24,9 @@ def run(tier, runner):
     ssp = matrix.programs(runner, matrix.smallset_points(tier)) + real
     r_ssg = sets.ss_grow(ssp)
     r_sss = sets.ss_state(ssp)
-    r_ssg.require(3, 'SmallSet grow call sites')
-    r_cs.require(20, 'SmallVector mutators')
-    r_gg.require(7, 'grow call sites')
+    r_ssg.require(2, 'SmallSet grow call sites')
+    r_cs.require(14, 'SmallVector mutators')
+    r_gg.require(4, 'grow call sites')
     r_span.require(6, 'inline layouts')
     return {
         'results': [r1, r_cs, r_gg, r_span, r_w, r_r, r_es, r_si, r_ssg, r_sss],
